@@ -361,3 +361,11 @@ Example C15c_ex_last_fragment_flip_not_detected :
   rx_skipped (log_read_all_x (set_byte 25 1 (fst (log_append_all 0 [[1; 2; 3]; [4; 5]; [6]])))) = 0 /\
   rx_skipped (log_read_all_x (set_byte 16 2 (fst (log_append_all 0 [[1; 2; 3]; [4; 5]; [6]])))) = 1.
 Proof. vm_compute. split; reflexivity. Qed.
+
+(** a handle that points beyond the end of the file (the usual result of a corrupted footer or index
+    entry) reads as "short"; the correspondence driver relies on this instead of evaluating the
+    model on offsets of up to 2^64 *)
+Theorem C15b_block_beyond_eof_short : forall (file : bytes) (h : handle),
+  blen file < h_off h + h_size h + BLOCK_TRAILER -> read_block_at file h = BShort.
+Proof. exact read_block_at_beyond_eof. Qed.
+Print Assumptions C15b_block_beyond_eof_short.
